@@ -132,6 +132,12 @@ impl Group for Secp256K1Group {
     fn deserialize(buf: &Self::Serialization) -> Result<Self::Element, GroupError> {
         let encoded_point =
             k256::Sec1Point::from_bytes(buf).map_err(|_| GroupError::MalformedElement)?;
+        // Only the compressed SEC1 form is a valid encoding: the 33-byte
+        // "compact" form (tag 0x05) would decode to a point that re-encodes
+        // differently.
+        if !encoded_point.is_compressed() {
+            return Err(GroupError::MalformedElement);
+        }
 
         match Option::<AffinePoint>::from(AffinePoint::from_sec1_point(&encoded_point)) {
             Some(point) => {
